@@ -158,6 +158,7 @@ class ClusterView:
         members = {}         # watcher index -> list of sub ids (model conts order)
         submode = {}
         pubs, keylease, nlease = {}, {}, 7000
+        armed = {}
         for op, st in zip(case["ops"], obs["steps"]):
             name = op[0]
             if name == "put":
@@ -264,24 +265,43 @@ class ClusterView:
                 elif t in ("geterr", "compacted", "closed", "canceled"):
                     self.feats.add("fault_" + t)
             # ---- listeners
-            if name == "sub" and not st.get("err"):
-                sid, w, mode, excl = op[1], op[2], op[3], op[4]
+            def join(sid, w, mode, excl):
                 th = cur[w]
                 so = st["subs"][str(sid)]
                 if mode == "rec":
                     order = [(self.kid(r[1]), num(r[2])) for r in so["rec"] if r[0] == "add"]
+                    so["rec"] = []
                 else:
                     vals = (st["state"].get(cl_tag(*W[w])) or {}).get("values") or []
                     order = [(self.kid(k), num(v)) for k, v in vals]
                 th["ops"].append({"d": "join", "x": excl, "order": order, "jn": {"rec": 0, "api": 1, "res": 2}[mode]})
                 members[w].append(sid)
                 submode[sid] = mode
-            elif name == "unsub":
-                sid = op[1]
+
+            def leave(sid):
                 for w, l in members.items():
                     if sid in l:
                         cur[w]["ops"].append({"d": "leave", "i": l.index(sid)})
                         l.remove(sid)
+
+            # subscribers closed / created WHILE this step's change was being dispatched (hooks): the watcher
+            # dispatches over a snapshot of its listeners taken at the start, so every listener that stays gets the
+            # change exactly once and the membership change takes effect afterwards (ProofsH.dispatch_copy_*)
+            for f in st.get("fired") or []:
+                self.feats.add("hook_%s_%s" % (f["act"], armed.get(f["trig"], {}).get("how", "?")))
+                if f["act"] == "unsub":
+                    leave(f["sid"])
+                elif str(f["sid"]) in st["subs"] and f["trig"] in armed:
+                    a = armed[f["trig"]]
+                    w = [w for w, l in members.items() if f["trig"] in l]
+                    if w:
+                        join(f["sid"], w[0], a["mode"], a["excl"])
+            if name == "hook":
+                armed[op[1]] = ({"how": op[4]} if op[2] == "unsub" else {"mode": op[4], "excl": op[5], "how": op[6]})
+            if name == "sub" and not st.get("err"):
+                join(op[1], op[2], op[3], op[4])
+            elif name == "unsub":
+                leave(op[1])
             elif name == "unspy":
                 th = cur.pop(op[1])
                 self.finish(th, W, muts)
@@ -525,6 +545,15 @@ class C13(Property):
                      ["spy", 1], ["sub", 2, 1, "api", True], ["put", "svc/k2", "v1"], ["del", "svc/k2"], ["put", "svc/k1", "v2"],
                      ["closewatch"], ["pause"], ["put", "svc/k3", "v2"], ["del", "svc/k1"], ["compact"], ["resume"], ["reconnect"],
                      ["unsub", 0], ["unsub", 1], ["unsub", 2], ["unspy", 0], ["unspy", 1], ["spy", 0], ["sub", 3, 0, "api", False]]},
+            # the listener set changes WHILE a change is dispatched: closed from inside its own callback / from another
+            # goroutine while the callback is held / a subscriber created from inside a callback; watch event and reload diff
+            {"kind": "cluster", "base": 1, "eps": 1, "watchers": [{"key": "svc", "exact": False}],
+             "ops": [["spy", 0], ["sub", 0, 0, "rec", False], ["sub", 1, 0, "api", False], ["sub", 2, 0, "rec", True],
+                     ["put", "svc/k1", "v1"], ["put", "svc/k2", "v2"], ["hook", 0, "unsub", 0, "in"], ["del", "svc/k1"],
+                     ["put", "svc/k3", "v3"], ["hook", 1, "unsub", 1, "out"], ["put", "svc/k2", "v4"],
+                     ["hook", 2, "sub", 3, "rec", False, "in"], ["put", "svc/k5", "v5"], ["sub", 4, 0, "rec", False],
+                     ["pause"], ["put", "svc/k6", "v6"], ["del", "svc/k2"], ["hook", 2, "unsub", 2, "in"], ["reconnect"], ["resume"],
+                     ["put", "svc/k7", "v7"]]},
             {"kind": "subset", "set": [V(i) for i in range(32)], "sub": 32},
             {"kind": "subset", "set": [V(i) for i in range(33)], "sub": 32},
             {"kind": "kube", "ops": [
@@ -645,12 +674,13 @@ class C13(Property):
         nw = len(watchers)
         use_res = rng.random() < 0.3
         use_pub = rng.random() < 0.4
+        use_hooks = rng.random() < 0.5
         nv = rng.randint(1, 4)
         keys = CL_KEYS if rng.random() < 0.6 else CL_KEYS[:4]
         neps = 2 if rng.random() < 0.3 else 1          # endpoints of the etcd cluster; subscribers may list them in either order
         base = rng.choice([1, 1, 1, 2, 1 << 31, (1 << 40) + 7])   # revision of the empty store
         ops = []
-        spied, members, store, pubs = set(), {}, {}, set()
+        spied, members, store, pubs, modes = set(), {}, {}, set(), {}
         st = {"sid": 0, "rev": base, "geterr": 1 if rng.random() < 0.15 else 0}
 
         def val(k):
@@ -698,8 +728,11 @@ class C13(Property):
                 # share a value at that moment and etcd is not withholding deliveries)
                 wk = watchers[w]
                 inr = [v for k, v in store.items() if cl_in_range(k, wk["key"], wk["exact"])]
-                mode, excl = "api", (inj or (not st.get("paused") and len(set(inr)) == len(inr))) and rng.random() < 0.45
+                # (registrations made by Publishers are not in the generator's own picture of the store: then only
+                # when every key has values of its own)
+                mode, excl = "api", (inj or (not use_pub and not st.get("paused") and len(set(inr)) == len(inr))) and rng.random() < 0.45
             ops.append(["sub", st["sid"], w, mode, excl] + ([True] if neps > 1 and rng.random() < 0.5 else []))
+            modes[st["sid"]] = mode
             members[w].append(st["sid"])
             st["sid"] += 1
 
@@ -743,7 +776,62 @@ class C13(Property):
                 v = "v%d" % (200 + 10 * pid + rng.randrange(2)) if inj else "v%d" % rng.randrange(nv)
                 ops.append(["pub", pid, key, v, rng.choice([0, 0, 1, 2])])
                 pubs.add(pid)
-            st["rev"] += 2           # upper bound, only used to bound "stale"
+                st["rev"] += 1       # a lower bound of etcd's revision is enough (it only bounds "stale")
+
+        def during_dispatch():
+            # the listener set of a watcher changes WHILE the watcher is dispatching a change to it: a subscriber is
+            # closed / created from inside a listener callback (re-entrantly) or from another goroutine while the
+            # callback is held - during a watch event and during the diff of a reload
+            cand = [w for w in spied if len([x for x in members[w] if modes[x] != "res"]) >= 1 and len(members[w]) >= 3]
+            if not cand or st.get("paused"):
+                return sub()
+            w = rng.choice(sorted(cand))
+            inr = [k for k in keys if cl_in_range(k, watchers[w]["key"], watchers[w]["exact"])]
+            if not inr:
+                return mut()
+            trigs = [x for x in members[w] if modes[x] != "res"]
+            trig = rng.choice(trigs[:-1] or trigs) if rng.random() < 0.7 else rng.choice(trigs)
+            how = rng.choice(["in", "in", "out"])
+            if rng.random() < 0.7:
+                # mostly a listener registered before others (itself or an earlier one): those after it must not lose the change
+                early = members[w][:members[w].index(trig) + 1]
+                target = rng.choice(early) if rng.random() < 0.7 else rng.choice(members[w])
+                hook = ["hook", trig, "unsub", target, how]
+            else:
+                target = None
+                mode = rng.choice(["rec", "rec", "api"])
+                hook = ["hook", trig, "sub", st["sid"], mode, mode == "rec" and rng.random() < 0.4, how]
+            if rng.random() < 0.6:
+                k = rng.choice(inr)                      # a watch event: exactly one PUT is dispatched
+                v = val(k)
+                for _ in range(6):                       # preferably one that changes the views
+                    if store.get(k) != v and (inj or v not in store.values()):
+                        break
+                    k = rng.choice(inr)
+                    v = val(k)
+                ops.append(hook)
+                store[k] = v
+                st["rev"] += 1
+                ops.append(["put", k, v])
+            else:
+                ops.append(["pause"])                   # a reload diff with at least one call
+                absent = [k for k in inr if k not in store]
+                if absent:
+                    k = rng.choice(absent)
+                    store[k] = val(k)
+                    ops.append(["put", k, store[k]])
+                else:
+                    k = rng.choice(inr)
+                    del store[k]
+                    ops.append(["del", k])
+                st["rev"] += 1
+                ops.extend([hook, ["reconnect"], ["resume"]])
+            if target is None:
+                members[w].append(st["sid"])
+                modes[st["sid"]] = hook[4]
+                st["sid"] += 1
+            else:
+                members[w].remove(target)
 
         def takeover():
             # what "exclusive" is about: a second key registers a value that is already served, then goes away
@@ -770,6 +858,8 @@ class C13(Property):
             r = rng.random()
             if r < 0.12 and any(o[0] == "sub" and o[4] for o in ops):
                 takeover()
+            elif r >= 0.20 and r < 0.34 and use_hooks:
+                during_dispatch()
             elif r < 0.20 and use_pub:
                 publish()
             elif r < 0.36:
@@ -825,7 +915,8 @@ class C13(Property):
         base = case.get("base") or 1
         paused, rev, store = False, base, {}
         nw = len(case["watchers"])
-        for o in case["ops"]:
+        modes = {}
+        for idx, o in enumerate(case["ops"]):
             n = o[0]
             if n == "spy":
                 if o[1] in spied or not 0 <= o[1] < nw:
@@ -840,12 +931,28 @@ class C13(Property):
                 if o[2] not in spied or o[1] in sids or (o[3] == "res" and case["watchers"][o[2]]["exact"]):
                     return False
                 sids.add(o[1])
+                modes[o[1]] = o[3]
                 members[o[2]].append(o[1])
             elif n == "unsub":
                 ws = [w for w, l in members.items() if o[1] in l]
                 if not ws:
                     return False
                 members[ws[0]].remove(o[1])
+            elif n == "hook":
+                ws = [w for w, l in members.items() if o[1] in l]
+                nxt = case["ops"][idx + 1][0] if idx + 1 < len(case["ops"]) else ""
+                if not ws or modes.get(o[1]) == "res" or paused and nxt != "reconnect" or nxt not in ("put", "reconnect"):
+                    return False
+                if o[2] == "unsub":
+                    if o[3] not in members[ws[0]]:
+                        return False
+                    members[ws[0]].remove(o[3])
+                else:
+                    if o[3] in sids:
+                        return False
+                    sids.add(o[3])
+                    modes[o[3]] = o[4]
+                    members[ws[0]].append(o[3])
             elif n == "pub":
                 if o[1] in pids:
                     return False
